@@ -282,6 +282,27 @@ def entailed(formulas, binds=None, max_vars=12):
     return res
 
 
+def cond_subst(e, binds, depth=3):
+    """pathcond.cond(e) with leaves that are simple immutable locals replaced by the formula of their initialiser."""
+    f = pc.cond(e)
+
+    def rec(f, d):
+        t = f[0]
+        if t == "leaf" and f[1] == "expr" and d > 0:
+            lid = local_id(f[2])
+            if lid is not None and lid in binds:
+                return rec(pc.cond(binds[lid]), d - 1)
+            return f
+        if t == "not":
+            return pc.f_not(rec(f[1], d))
+        if t == "and":
+            return pc.f_and([rec(g, d) for g in f[1]])
+        if t == "or":
+            return pc.f_or([rec(g, d) for g in f[1]])
+        return f
+    return rec(f, depth)
+
+
 # ---------------------------------------------------------------------------
 # deep tokens
 
